@@ -19,6 +19,7 @@ def run(chk):
             chk.notes.append("Lean lemmas not built in this round")
         from contracts import C05_named
         chk.guard(C05_named.run_named, getattr(chk, "tier", "quick") == "thorough", fallback=C05_named.replayers())
+        chk.guard(C05_named.run_closed_form, fallback=[C05_named._replay_closed_form])
         chk.guard(C05_named.run_rates, getattr(chk, "tier", "quick") == "thorough", fallback=C05_named.rate_replayers())
         chk.discharge(workers=1)
     if not only or "bounded" in only:
